@@ -23,7 +23,9 @@ PROPS["C13"] = dict(
     rule="per module one stream of histories interleaving object creation / modification / closing with block "
          "boundaries (block times advancing by 1..10^5 s), several objects due at one height, operations attempted in "
          "the block an object falls due; non-trivial = an object is modified or closed (or that is attempted) in the "
-         "block it falls due or the block before, or >= 2 objects fall due together; distinct = by hash of the history",
+         "block it falls due or the block before, or >= 2 objects fall due together; distinct = by hash of the history; "
+         "service: contexts of MsgCallService, oracle feeds and random oracle requests; stream abci: mixed histories of "
+         "the four modules through real FinalizeBlock / Commit with signed transactions (>= 2 transactions in a block)",
     codes={},
     explain={51: "FinalizeBlock failed (or panicked): a begin / end blocker of some module aborted in the real ABCI run",
              52: "ABCI run: the HTLC expiry queue and the open contracts are not in bijection after a committed block",
@@ -43,6 +45,9 @@ PROPS["C13"] = dict(
              13: "an HTLC was refunded in a block other than its expiration height, or a closed HTLC changed again"},
     trusted_base=["ids (SHA-256) are interned: equal bytes <-> equal number; the model never hashes",
                   "money-dependent branch outcomes (bank, asset limits, secrets, provider prices) enter the queue models as boolean inputs "
-                  "read off the implementation's behaviour; the amounts themselves belong to C03-C08"],
+                  "read off the implementation's behaviour; the amounts themselves belong to C03-C08; the two hypotheses this leaves "
+                  "(farm: duration >= 0, no refund fails in updatePool; htlc: no refund fails) are theorems about the full farm / HTLC "
+                  "models (Queues/LinkFarm.v, Queues/LinkHtlc.v), which are tied to the code by the checks of C05/C06 and C03/C04",
+                  "the ABCI stream evaluates abort + hygiene only (no model correspondence inside a block)"],
     assumptions=["block heights increase by one; block time > 0 (unix seconds)"],
 )
